@@ -97,11 +97,12 @@ def space(ctx):
 
 # ======================================================================================== programs
 class Prog:
-    __slots__ = ("pid", "key", "params", "ret", "nloc", "alph", "code", "listing", "regs", "ins")
+    __slots__ = ("pid", "key", "params", "ret", "nloc", "alph", "code", "listing", "regs", "ins", "bases")
 
-    def __init__(self, pid, key, params, ret, nloc, body, alph=None):
+    def __init__(self, pid, key, params, ret, nloc, body, alph=None, bases=()):
         """body(asm, R): emit instructions; R.a, R.b = parameter registers, locals are v0..v(nloc-1)."""
         self.pid, self.key, self.params, self.ret, self.nloc = pid, key, params, ret, nloc
+        self.bases = tuple(bases)
         self.alph = alph or params
         width = sum(2 if p == "J" else 1 for p in params)
         self.regs, self.ins = nloc + width, width
@@ -290,6 +291,14 @@ def _b_long_ops():
     return ops
 
 
+_B_BASE = {"i2c": "A:int-to-char", "rsub5": "A:rsub-int/lit8:1", "mulm3": "A:mul-int/lit16:-1"}
+
+
+def _b_base(name, ty):
+    """the tier A program (present in both tiers) that exercises the same operator on its own"""
+    return _B_BASE.get(name) or "A:%s-%s" % (name, ty)
+
+
 def tier_b(thorough):
     P = []
     modes = ["tmp", "reuse"] + (["both", "2addr"] if thorough else [])
@@ -324,7 +333,8 @@ def tier_b(thorough):
                             e2(s, r, t, t)
                     s.ins(ret_ins("J" if ty == "long" else "I"), r)
                 pair = "%s%s,%s" % ("" if ty == "int" else "long.", n1, n2)
-                P.append(Prog("B:%s:%s" % (pair, mode), "B:" + pair, T + T, T, nloc, body))
+                bases = sorted({_b_base(n1, ty), _b_base(n2, ty)} | ({"A:long-to-int"} if ty == "long" else set()))
+                P.append(Prog("B:%s:%s" % (pair, mode), "B:" + pair, T + T, T, nloc, body, bases=bases))
     return P
 
 
@@ -1111,48 +1121,75 @@ def compile_and_run(work, cls, progs, srcs, acc):
     return rejected, outputs, hung
 
 
+def _verdict(p, i, dec, srcs, rejected, outputs, hung, exp):
+    """-> None (agrees) | (kind, detail text)"""
+    if srcs[i] is None:
+        return "decompile-exception", "  decompiler raised: " + dec[i][1]
+    jtxt = "  java:\n    " + srcs[i].strip("\n").replace("\n", "\n    ") + "\n"
+    if i in rejected:
+        return "javac-reject", jtxt + "  javac: " + rejected[i]
+    if i in hung:
+        return "nontermination", jtxt + "  the compiled method does not terminate (bytecode terminates on every tuple)"
+    got = outputs.get(i)
+    if got is None or len(got) != len(exp):
+        raise RuntimeError("driver output missing/short for %s: %r" % (p.pid, got))
+    if got == exp:
+        return None
+    diffs = [(t, e, g) for t, e, g in zip(p.tuples(), exp, got) if e != g]
+    vm = any("." not in e and "." not in g for _, e, g in diffs)          # a '.' only occurs in exception class names
+    ex = any("." in e or "." in g for _, e, g in diffs)
+    t, e, g = diffs[0]
+    return ("value-mismatch" if vm else "exception-mismatch",
+            jtxt + "  args=%r: bytecode -> %s, java -> %s   (%d of %d tuples differ%s)"
+            % (tuple(t), e, g, len(diffs), len(exp), "; exception behaviour differs too" if ex and vm else ""))
+
+
 def judge(progs, acc, tier, cls="T0", samples=0):
-    """The one judging routine (shared by run_shard and replay)."""
+    """The one judging routine (shared by run_shard and replay).
+
+    Tier B programs name the tier A single-operator programs they are built from (`bases`); those are compiled and run
+    along with the batch, and a pair whose operator already disagrees on its own is counted as `subsumed_by_tier_A`
+    instead of being reported again (one root cause -> one key)."""
+    have = {p.pid for p in progs}
+    need = []
+    for p in progs:
+        for b in p.bases:
+            if b not in have:
+                have.add(b)
+                need.append(b)
+    if need:
+        by_pid = {p.pid: p for p in catalogue(False)}
+        allp = list(progs) + [by_pid[b] for b in need]
+    else:
+        allp = list(progs)
     work = tempfile.mkdtemp(prefix="c21_")
     try:
-        dec = decompile(progs)
+        dec = decompile(allp)
         srcs = [s for s, _ in dec]
-        rejected, outputs, hung = compile_and_run(work, cls, progs, srcs, acc)
+        rejected, outputs, hung = compile_and_run(work, cls, allp, srcs, acc)
+        exps = [expected_line(p) for p in allp]
+        verdicts = [_verdict(p, i, dec, srcs, rejected, outputs, hung, exps[i]) for i, p in enumerate(allp)]
+        failing = {p.pid for p, v in zip(allp, verdicts) if v is not None}
         for i, p in enumerate(progs):
-            tier_name = p.pid[0]
+            exp, v = exps[i], verdicts[i]
             acc.count("programs")
-            acc.count("programs_tier_" + tier_name)
-            exp = expected_line(p)
+            acc.count("programs_tier_" + p.pid[0])
             acc.case(nontrivial=p.pid, outcome=(tuple(exp[:40]), len(set(exp))))
-            wit = {"pid": p.pid, "tier": tier}
+            if v is None or v[0] in ("value-mismatch", "exception-mismatch"):
+                acc.count("disagreements_checked", len(exp))
+            if samples and v is None and len(acc.samples) < samples:
+                acc.sample({"program": p.pid, "bytecode": p.listing, "java": srcs[i].strip("\n").split("\n")})
+            if v is None:
+                continue
+            sub = [b for b in p.bases if b in failing]
+            if sub:
+                acc.count("subsumed_by_tier_A")
+                acc.note("tier B programs containing an operator whose own tier A program fails are not reported again "
+                         "(counter subsumed_by_tier_A)")
+                continue
             head = "%s\n  bytecode (%s)%s, registers=%d:\n    %s\n" % (
                 p.pid, ",".join(JT[c] for c in p.params), JT[p.ret], p.regs, "\n    ".join(p.listing))
-            if srcs[i] is None:
-                acc.violation(p.key + ":decompile-exception", wit, head + "  decompiler raised: " + dec[i][1])
-                continue
-            jtxt = "  java:\n    " + srcs[i].strip("\n").replace("\n", "\n    ") + "\n"
-            if i in rejected:
-                acc.violation(p.key + ":javac-reject", wit, head + jtxt + "  javac: " + rejected[i])
-                continue
-            if i in hung:
-                acc.violation(p.key + ":nontermination", wit,
-                              head + jtxt + "  the compiled method does not terminate (bytecode terminates on every tuple)")
-                continue
-            got = outputs.get(i)
-            if got is None or len(got) != len(exp):
-                raise RuntimeError("driver output missing/short for %s: %r" % (p.pid, got))
-            acc.count("disagreements_checked", len(exp))
-            if samples and len(acc.samples) < samples:
-                acc.sample({"program": p.pid, "bytecode": p.listing, "java": srcs[i].strip("\n").split("\n")})
-            if got != exp:
-                diffs = [(t, e, g) for t, e, g in zip(p.tuples(), exp, got) if e != g]
-                exc = any(("." in e) != ("." in g) or ("." in e and e != g) for _, e, g in diffs)
-                vm = any("." not in e and "." not in g for _, e, g in diffs)
-                kind = "value-mismatch" if vm else "exception-mismatch"
-                t, e, g = diffs[0]
-                acc.violation(p.key + ":" + kind, wit,
-                              head + jtxt + "  args=%r: bytecode -> %s, java -> %s   (%d of %d tuples differ%s)"
-                              % (tuple(t), e, g, len(diffs), len(exp), "; also exception behaviour" if exc and vm else ""))
+            acc.violation("%s:%s" % (p.key, v[0]), {"pid": p.pid, "tier": tier}, head + v[1])
     finally:
         shutil.rmtree(work, ignore_errors=True)
 
